@@ -190,6 +190,14 @@ func init() {
 	// keys of every tree built on it
 	impliedProps["R15"] = append(impliedProps["R15"], "C01", "C02")
 	impliedProps["R48"] = append(impliedProps["R48"], "C17")
+	// stored keys that are views of shared or foreign memory do not stay as inserted (C18), and
+	// neither does a leaf whose slot is taken by another child (R37) or a node cleared only in part
+	// before it is pooled (R24, above)
+	impliedProps["R48"] = append(impliedProps["R48"], "C18", "C13")
+	impliedProps["R37"] = append(impliedProps["R37"], "C18")
+	// references left in a pooled node keep what they point to alive in the node's next life: the
+	// memory a tree holds then follows the history of the pool, not its content
+	impliedProps["R24"] = append(impliedProps["R24"], "C17")
 	impliedProps["R49"] = append(impliedProps["R49"], "C12", "C14", "C16")
 	impliedProps["R50"] = append(impliedProps["R50"], "C11", "C17", "C05", "C12", "C01", "C03", "C08", "C09") // a dead node left behind: an emptied tree is not like a new one
 	impliedProps["R11"] = append(impliedProps["R11"], "C09", "C08", "C02", "C04")                             // the worklists are shared by every tree kind
@@ -232,6 +240,11 @@ func init() {
 	// a node that changes its size class through a copy of its slot is not the node the tree
 	// reaches afterwards: the slot still shows the old, cleared node, and probing it finds nothing
 	impliedProps["R55"] = append(impliedProps["R55"], "C10")
+	// … its siblings vanish from iteration while the size still counts them
+	impliedProps["R55"] = append(impliedProps["R55"], "C06", "C02")
+	// a write through a key argument reaches a stored key when the argument is a slice of a key the
+	// tree handed out: the leaf is then no longer on the path its bytes determine
+	impliedProps["R26"] = append(impliedProps["R26"], "C11")
 	// the wrapped counter of a full node of the widest class
 	impliedProps["R56"] = append(impliedProps["R56"], "C15", "C06", "C01", "C05", "C10", "C11", "C12", "C17")
 	impliedProps["R16"] = append(impliedProps["R16"], "C06")
